@@ -132,14 +132,36 @@ pub fn load_findings() -> Vec<Finding> {
 
 impl Finding {
     pub fn covers(&self, class: &str) -> bool {
-        self.classes.iter().any(|c| match c.strip_suffix('*') {
-            Some(prefix) => class.starts_with(prefix),
-            None => c == class,
-        })
+        self.classes.iter().any(|c| glob(c, class))
     }
     pub fn key(&self) -> String {
         format!("{} {}", self.property, self.classes.first().cloned().unwrap_or_default())
     }
+}
+
+/// `*` matches any run of characters (also across `/`).
+pub fn glob(pattern: &str, text: &str) -> bool {
+    let parts: Vec<&str> = pattern.split('*').collect();
+    if parts.len() == 1 {
+        return pattern == text;
+    }
+    let mut pos = 0usize;
+    for (i, part) in parts.iter().enumerate() {
+        if i == 0 {
+            if !text.starts_with(part) {
+                return false;
+            }
+            pos = part.len();
+        } else if i == parts.len() - 1 {
+            return text.len() >= pos + part.len() && text[pos..].ends_with(part);
+        } else {
+            match text[pos..].find(part) {
+                Some(at) => pos += at + part.len(),
+                None => return false,
+            }
+        }
+    }
+    true
 }
 
 pub fn match_open_finding<'a>(fs: &'a [Finding], v: &Violation) -> Option<&'a Finding> {
